@@ -60,11 +60,22 @@ deriving Repr, DecidableEq
 def errProtocol : Nat := 1
 def errFlowControl : Nat := 3
 
-/-- h2_init_stream(): a new response stream with `body` bytes to send -/
+/-- r->x.h2.prio for the urgency every stream of this model has (3): `urg << 1 | !incremental`,
+    so that ascending order puts incremental streams before non-incremental ones -/
+def FcStream.prio (s : FcStream) : Nat := if s.incremental then 6 else 7
+
+/-- h2_apply_priority_update(): the streams are kept sorted by (prio, id) -/
+def insertPrio (s : FcStream) : List FcStream → List FcStream
+  | [] => [s]
+  | x :: xs =>
+    if x.prio > s.prio ∨ (x.prio = s.prio ∧ x.id > s.id) then s :: x :: xs else x :: insertPrio s xs
+
+/-- h2_init_stream(): a new response stream with `body` bytes to send, placed in the
+    scheduler's order by h2_apply_priority_update() -/
 def openStream (c : FcConn) (id body : Nat) (incremental : Bool) : FcConn :=
   { c with maxId := max c.maxId id,
-           streams := c.streams ++ [{ id := id, swin := c.initWin, pending := body,
-                                       incremental := incremental, credit := c.clientInit }] }
+           streams := insertPrio { id := id, swin := c.initWin, pending := body,
+                                   incremental := incremental, credit := c.clientInit } c.streams }
 
 /-- would `swin + diff` leave int32? (the guard in h2_parse_frame_settings) -/
 def winOverflows (swin diff : Int) : Bool :=
